@@ -105,9 +105,19 @@ def _has_await(nodes):
     return any(isinstance(x, ast.Await) for n in nodes for x in ast.walk(n))
 
 
-def with_order(repo):
-    # private module-level helpers (e.g. one that creates the wrapper pair) are inlined first
-    fn = pynorm.canonical_function(parse(repo, 'grpclib/server.py'), None, 'request_handler', temps=False)
+def _assigned_callees(fn):
+    """private module-level functions whose RESULT is bound to a name in fn (`x = _f(..)`, `a, b = _f(..)`,
+    possibly awaited): the only helpers that can carry a context manager to the `with`"""
+    out = set()
+    for n in ast.walk(fn):
+        if isinstance(n, (ast.Assign, ast.AnnAssign)) and n.value is not None:
+            v = n.value.value if isinstance(n.value, ast.Await) else n.value
+            if isinstance(v, ast.Call) and isinstance(v.func, ast.Name) and v.func.id.startswith('_'):
+                out.add(v.func.id)
+    return out
+
+
+def _with_order_of(fn):
     env = _assign_values(fn)
 
     def items_roles(w):
@@ -140,6 +150,24 @@ def with_order(repo):
     if not _has_await(body):
         raise Unsupported('request_handler: nothing is awaited inside the `with`')
     return roles
+
+
+def with_order(repo):
+    tree = parse(repo, 'grpclib/server.py')
+    raw = func_node(tree, 'request_handler')
+    # 1. as written; 2. with the private helpers whose result is bound to a name seen through (the others
+    # -- _abort and the like -- cannot carry a context manager and stay calls); 3. everything inlined
+    attempts = [lambda: raw,
+                lambda: pynorm.canonical_function(tree, None, 'request_handler', temps=False,
+                                                  keep=lambda n: n not in _assigned_callees(raw)),
+                lambda: pynorm.canonical_function(tree, None, 'request_handler', temps=False)]
+    errors = []
+    for get in attempts:
+        try:
+            return _with_order_of(get())
+        except (Unsupported, pynorm.Unsupported) as e:
+            errors.append(str(e))
+    raise Unsupported('request_handler: ' + ' | '.join(errors))
 
 
 # ---- DeadlineWrapper.start: the path taken when nothing remains -----------------------------------
